@@ -217,6 +217,10 @@ CHECKS = {
                   "test - three fresh processes per configuration (equal seeds "
                   "with scrambled PYTHONHASHSEED / global RNG state / start time, "
                   "and seed+1), canonical digests compared field by field; "
+                  "the second process additionally runs and discards another "
+                  "training call first (process history), gets its uninitialised "
+                  "np.empty memory filled with another value (sanitizer-style "
+                  "poisoning) and a differently aligned observation buffer; "
                   "tripwire on global RNG calls from repository frames",
         text="Exploration over every training routine on scripted and seeded "
              "Gymnasium environments with settings that exercise learning.",
